@@ -456,6 +456,20 @@ def determinism_harness(e):
 CREATE = ["leaf", "parent", "duplicate", "dc_replace", "roundtrip", "roundtrip_after_detach"]
 
 
+
+def _x_runner(tier: str, seed: int, workers: int):
+    from xh import c03_x
+    from xh.runner import run_obligations
+
+    return run_obligations("xh.c03_x", c03_x.QUICK, 120 if tier == "quick" else 300, workers=workers, signatures=c03_x.SIGNATURES)
+
+
+def replay_obligation(payload):
+    from xh.runner import replay_call
+
+    return replay_call(payload)
+
+
 def spec(tier: str, seed: int) -> Spec:
     var = "selectors: operation, receiver, argument per step; lazy: strict"
     fams = []
@@ -485,6 +499,7 @@ def spec(tier: str, seed: int) -> Spec:
     Kmax = plan[-1][0]
     return Spec(
         families=fams,
+        obligation_runners=[_x_runner],
         functions=FUNCTIONS,
         bounds={"history_length": f"all histories of {plan[0][0]} operations; histories of {Kmax} operations whose steps {sorted(plan[-1][1])} (0-based) are node-creating operations", "max_handles": 4, "digest_sizes": [1, 8], "operations": OPS, "classes": ["VLeaf", "VMany"]},
         rule="a case = one path = a history of K public operations (operation, receiver, argument each a selector) under one digest size and one value of strict; non-trivial and distinct by (digest size, history text)",
